@@ -622,7 +622,13 @@ class Interp:
                 return Opt(True, x)
             tgt = self.F.adt_name(e["t"]) if e is not None and "t" in e else None
             if tgt is not None and tgt in self.F.adts and isinstance(x, Sc):
+                # a scalar converted into a crate type: the impl `From<F>` whose source is a type parameter / primitive float
+                # (other From impls — from another number type — do not apply to a scalar)
                 for imp in self.F.impls_of("From", tgt):
+                    targs = imp.get("trait_args", [])
+                    src = self.F.ty(targs[1]) if len(targs) > 1 and isinstance(targs[1], int) else None
+                    if src is not None and src.get("k") not in ("param", "prim", "float"):
+                        continue
                     b = self.F.impl_item(imp, "from")
                     if b is not None:
                         return self.call_body(b, [x], e)
